@@ -93,7 +93,8 @@ def reflinks_layer(ck):
     first character; the real parser renders text + blank line + the definition."""
     t = 'Q' if ck.tier == 'quick' else 'T'
     # second alphabet {a, [, ], (, )}: the plainest inline destination (balanced parentheses) is tried first, then the reference forms
-    jobs = [('RefLinks%s.cfg' % t, sh) for sh in ['a', '[', ']', '!']] + [('RefLinksP%s.cfg' % t, sh) for sh in ['a', '[', ']', '(', ')']]
+    jobs = [('RefLinks%s.cfg' % t, sh) for sh in ['a', '[', ']', '!']] + [('RefLinksP%s.cfg' % t, sh) for sh in ['a', '[', ']', '(', ')']] + \
+           [('RefLinksL%s.cfg' % t, sh) for sh in ['a', 'A', '[', ']']]           # third alphabet {a, A, [, ], space}: labels are compared case-folded
 
     def one(job):
         return core.tlc('RefLinks', job[0], workers=1, env={'SHARD': job[1]}, timeout=3000, heap='2g')
@@ -123,7 +124,7 @@ def reflinks_layer(ck):
             if got != want:
                 ck.violation('LinkRefs.html: source=%r expected=%r observed=%r' % (src, want, got),
                              {'input': src, 'expected': htmlnorm.normalize(want), 'observed': htmlnorm.normalize(got), 'clause': 'LinkRefs.html', 'classes': []})
-    if n < 120000 or links < 8000:
+    if n < 180000 or links < 10000:
         raise core.MachineryError('RefLinks.tla exported only %d texts (%d with a link or image)' % (n, links))
     ck.extra['reflinks_texts'] = n
     ck.extra['reflinks_texts_with_reference'] = links
